@@ -309,16 +309,17 @@ class StarSet(object):
                 str += "  {}: {}\n".format(i, self.states[i])
         return str
 
-    def generate(self, Nshells, threshold=1e-8, originstates=False):
+    def generate(self, Nshells, threshold=None, originstates=False):
         """
         Construct the points and the stars in the set. Does not include "origin states" by default; these
         are PairStates that iszero() is True; they are only needed if crystal has a nonzero VectorBasis.
 
         :param Nshells: number of shells to generate; this is interpreted as subsequent
           "sums" of jumplist (as we need the solute to be connected to the vacancy by at least one jump)
-        :param threshold: threshold for determining equality with symmetry
+        :param threshold: threshold for determining equality with symmetry (default: the crystal's threshold)
         :param originstates: include origin states in generate?
         """
+        if threshold is None: threshold = self.crys.threshold
         # nothing to do only if BOTH the range and the origin-state request are unchanged (an object that does not
         # record its flag -- copy of an older object, loaded from HDF5, result of diffgenerate -- is simply regenerated)
         if Nshells == getattr(self, 'Nshells', -1) and originstates == getattr(self, 'originstates', None): return
@@ -486,7 +487,7 @@ class StarSet(object):
 
     def __iadd__(self, other):
         """Add another StarSet to this one; very similar to generate()"""
-        threshold = 1e-8
+        threshold = self.crys.threshold
         if not isinstance(other, self.__class__): return NotImplemented
         if self.chem != other.chem: return ArithmeticError('Cannot add different chemistry index')
         if other.Nshells < 1: return self
@@ -678,7 +679,7 @@ class StarSet(object):
                 if gi != gf: symmjumplist.append(((gf, gi), -gdx))
         return symmjumplist
 
-    def diffgenerate(self, S1, S2, threshold=1e-8):
+    def diffgenerate(self, S1, S2, threshold=None):
         """
         Construct a starSet using endpoint subtraction from starset S1 to starset S2. Will
         include zero. Points from vacancy states of S1 to vacancy states of S2.
@@ -688,6 +689,7 @@ class StarSet(object):
         :param threshold: threshold for sorting magnitudes (can influence symmetry efficiency)
         """
         if S1.Nshells < 1 or S2.Nshells < 1: raise ValueError('Need to initialize stars')
+        if threshold is None: threshold = self.crys.threshold
         self.Nshells = S1.Nshells + S2.Nshells  # an estimate...
         self.originstates = None  # not a generated set any more: a later generate() must rebuild
         stateset = set([])
